@@ -363,6 +363,22 @@ func c12Time(w *run.Worker) {
 			run1(g, z, []int{sitField, sitVar, sitTag}[(gi+zi)%3])
 		}
 	}
+	// every documented layout (the all-digit unix forms among them) and numeric subjects under zone arguments
+	// that resolve and that do not: the zone decides for every kind of subject
+	for li, lay := range append(append([]any{}, func() (o []any) {
+		for _, l := range c12DocLayouts() {
+			o = append(o, l)
+		}
+		return
+	}()...), int64(1609556645), int64(1609556645123), int64(1609556645123456), int64(1609556645123456789), "1609556645", "1609556645123", "1609556645123456", "1609556645123456789", 1609556645.5) {
+		for zi, z := range []string{"Mars/Base", "+99", "-3:45", "Asia/Tokyo", "+9", "America/New_York"} {
+			if !w.Take() {
+				continue
+			}
+			z := z
+			run1(lay, &z, []int{sitField, sitVar}[(li+zi)%2])
+		}
+	}
 	for _, b := range base {
 		for _, z := range zones {
 			for _, sit := range []int{sitField, sitVarOverField, sitAbsent} {
